@@ -45,8 +45,8 @@ def gen_case(r):
         while typ in CONSUMED - {193}:
             typ = r.randrange(256)
         fid = r.randrange(65536)
-        mode = r.choice(["plain", "plain", "ack-waiting", "foreign-ack-waiting", "next-hop-deaf", "multicast", "dst-absent",
-                         "relay-foreign-ack"])
+        mode = r.choice(["plain", "plain", "ack-waiting", "ack-and-more-waiting", "foreign-ack-waiting", "next-hop-deaf", "multicast",
+                         "dst-absent", "relay-foreign-ack"])
         dst_addr = addrs[di]
         if mode == "dst-absent":
             # the destination does not exist: the last hop's transmission fails, every other hop works
@@ -67,9 +67,14 @@ def gen_case(r):
                 ops += [("inject", si, 1, hdr_bytes(kid, kid, r.randrange(65536), 193))]
             else:
                 m["mode"] = mode = "plain"
-        if mode == "ack-waiting":
+        if mode in ("ack-waiting", "ack-and-more-waiting"):
             # a NETWORK_ACK addressed to the sender is already in its RX FIFO when it starts waiting
             ops += [("inject", si, 1, hdr_bytes(addrs[si], addrs[si], fid, 193))]
+            if mode == "ack-and-more-waiting":
+                # ... followed by more traffic for this node: read in the same poll
+                other = r.choice([a for a in addrs if a != addrs[si]] or [0o5])
+                for _ in range(r.choice([1, 2])):
+                    ops += [("inject", si, 1, hdr_bytes(other, addrs[si], r.randrange(65536), r.choice([1, 5, 70])) + b"busy")]
         elif mode == "foreign-ack-waiting":
             other = r.choice([a for a in addrs if a != addrs[si]] or [0o5])
             ops += [("inject", si, 1, hdr_bytes(other, other, fid, 193))]
@@ -155,7 +160,7 @@ class Checker(D.DeliveryChecker):
                 continue
             if ack_t and inter:
                 # awaited: True only with an ACK addressed to the sender in time
-                if m["mode"] == "ack-waiting":
+                if m["mode"] in ("ack-waiting", "ack-and-more-waiting"):
                     if not ok:
                         return ("C13/false-although-network-ack-arrived", "write() = %s after %.2f ms" % (res, elapsed_ms))
                 else:
